@@ -185,5 +185,48 @@ pub fn run(ctx: &Ctx, st: &mut Stats) {
             st.sample(|| json!(c));
         }
     }
+    // special-direction seeking: longitudes (adjacent f64 values) at which the bearing crosses a quarter turn (+-90 deg:
+    // one component of the direction vector passes through zero), due north / south (0 / 180) — and ~1600 floats on
+    // either side, every one judged by the vector oracle (an "exact" fast path for a vanishing component lives here)
+    let nseek = ctx.quota(1_500, 100_000);
+    let mut rs = Rng::new(ctx.seed, 1602, ctx.shard);
+    let deg_at = |la: f64, lo: f64| -> Option<f64> { guarded(|| Qibla::new(Coordinates::new(Latitude::try_from(la).unwrap(), Longitude::try_from(lo).unwrap(), Elevation::try_from(0.0).unwrap())).degrees()).ok() };
+    for _ in 0..nseek {
+        let la = if rs.chance(0.3) { (rs.range(-89.0, 89.0) * 2.0).round() / 2.0 } else { rs.range(-89.0, 89.0) };
+        let target = *rs.pick(&[90.0, -90.0, 90.0, -90.0, 0.0]);
+        // scan for a sign change of (bearing - target) along the parallel, then bisect to adjacent floats
+        let f = |lo: f64| deg_at(la, lo).map(|d| o::norm180(d - target));
+        let start = rs.range(-180.0, 170.0);
+        let mut found = None;
+        let mut prev = f(start);
+        let mut lo = start;
+        while lo < 180.0 - 2.0 {
+            let nx = lo + 2.0;
+            let cur = f(nx);
+            if let (Some(a), Some(b)) = (prev, cur) {
+                if (a > 0.0) != (b > 0.0) && (a - b).abs() < 90.0 {
+                    found = Some((lo, nx, a > 0.0));
+                    break;
+                }
+            }
+            prev = cur;
+            lo = nx;
+        }
+        let Some((l0, l1, pos0)) = found else {
+            st.count("special_direction_seeks.no_crossing_on_this_parallel");
+            continue;
+        };
+        let (a, b) = super::bisect(l0, l1, |x| f(x).map(|v| (v > 0.0) == pos0).unwrap_or(true));
+        st.count(&format!("special_direction_seeks.target_{target}"));
+        for k in -800i64..=800 {
+            let lon = if k <= 0 { super::nudge_ulps(a, k) } else { super::nudge_ulps(b, k - 1) };
+            if !(-180.0..=180.0).contains(&lon) {
+                continue;
+            }
+            let c = Case { lat: X(la), lon: X(lon), elev: X(0.0), elev2: X(100.0) };
+            check(ctx, st, &c);
+        }
+        st.nontrivial_key(hash64(&format!("seek{la}{a}")));
+    }
     st.extra.insert("rule".into(), json!("fixed ladders along the Kaaba meridian/antimeridian/date line/prime meridian (0.1 deg steps) + seeded random incl. rings 0.1..1 deg around the Kaaba and its antipode, near-pole latitudes; non-trivial = outside the 0.1 deg exemption; distinct by (lat,lon) bits"));
 }
